@@ -376,12 +376,20 @@ def clauses(tier, seed):
       Clause('enum:coordinate-system attrs and dataset/netCDF round trips', 'enum',
              [XU + 'coordinate_system_from_attrs', XU + 'data_to_xarray', XU + '_infer_dims_shape_and_coords',
               XU + 'xarray_to_primitive_equations_with_time_data', CS + 'CoordinateSystem.asdict'], run_persistence, group='jax-d', heavy=True),
-  ]
+  ] + _pyvc_clauses()
+
+
+def _pyvc_clauses():
+  from contracts import dict_contracts
+  return dict_contracts.clauses()
 
 
 MANIFEST = {
-    'engine': 'rtc',
-    'technique': 'contract-based run-time round-trip contracts: exhaustive enumeration of small nested dictionaries, enumerated pytrees/axes, matrix identities for spectral resampling, enumerated coordinate systems and netCDF round trips; bounded',
-    'text': 'other: exhaustive over the stated finite family of dictionaries, complete over coefficients for resampling (matrices), enumerated otherwise. No deductive clause built.',
+    'engine': 'pyvc+rtc',
+    'technique': ('contract-based deductive: string VCs from the real source of flatten_dict / unflatten_dict on nested dictionaries of enumerated shape with *symbolic* keys and '
+                  'separator (z3 sequences, cvc5 --strings-exp; split lemma proved separately); bounded run-time round-trip contracts: exhaustive small dictionaries, pytrees/axes, '
+                  'matrix identities for spectral resampling, enumerated coordinate systems and netCDF round trips'),
+    'text': ('other: the dictionary round trip is proved for all key strings and all one-character separators on every shape of depth <= 3 (shapes enumerated, strings unbounded); '
+             'the same VCs refute it for multi-character separators and empty keys (known findings with witnesses); everything else is bounded (enumerated).'),
     'note': 'trusted: xarray/netCDF; closed-form harmonics oracle of C02 for "same function on the finer grid".',
 }
